@@ -122,8 +122,10 @@ pub fn run_scenario(seed: u64, i: usize, cells: &[Cell], tier: Tier) -> Outcome 
     wcfg.adversary = Adversary {
         forgeries: vec![(Forgery::OtherDest, 6), (Forgery::OtherProto, 6), (Forgery::OtherTracer, 6), (Forgery::OtherIcmpType, 3), (Forgery::OtherTeCode, 3)],
         offset_ns: (-50_000, -1_000),
-        late_pct: 0,
-        late_delay_ns: (0, 0),
+        // late copies: one response in 25 is delivered again one to two rounds later
+        late_pct: 4,
+        // (half of the worlds: just as the next round begins, before that round's own responses)
+        late_delay_ns: if r.chance(1, 2) { (700_000_000, 701_200_000) } else { (700_000_000, 1_400_000_000) },
     };
     let site = cell.name();
     let replay = replay_of("C02", seed, i, &tcfg, &wcfg.topo);
@@ -214,7 +216,7 @@ pub fn run_scenario(seed: u64, i: usize, cells: &[Cell], tier: Tier) -> Outcome 
 
 pub fn run(tier: Tier, seed: u64, only: Option<usize>) -> i32 {
     let mut rep = Report::new("C02", "exploration", tier, seed);
-    rep.rule = "scenario = cell x initial sequence x lossless in-order path of 253 routers + the target at ttl 254 = max-ttl (max-inflight 255, so every round issues 254 consecutive sequences; half of the TCP scenarios with 3..25% local port collisions, i.e. re-issued probes); per hop the quotation shape is drawn: IPv4 header+8 / +28 / +n / full (IPv6 always as much as fits), RFC 4884 none / length-only / compliant / legacy with MPLS and unknown objects, routers answering with destination unreachable (net / host / prohibited) instead of time exceeded, the target's port unreachable in every RFC 4884 shape, quoted TTL 0/1, quoted header checksum recomputed or stale, TOS rewritten, IPv4 options in the outer header; 6% of genuine responses are preceded by a near-miss forgery (other destination, other protocol, other identifier / fixed port, Dublin marker altered, other ICMP type/code) which must complete nothing; every probe whose genuine response was read must be Complete with the right responder; thorough walks initial sequences so that every issuable value is issued (per-cell counts under distinct_observed seq:<cell>)".into();
+    rep.rule = "scenario = cell x initial sequence x lossless in-order path of 253 routers + the target at ttl 254 = max-ttl (max-inflight 255, so every round issues 254 consecutive sequences; half of the TCP scenarios with 3..25% local port collisions, i.e. re-issued probes); per hop the quotation shape is drawn: IPv4 header+8 / +28 / +n / full (IPv6 always as much as fits), RFC 4884 none / length-only / compliant / legacy with MPLS and unknown objects, routers answering with destination unreachable (net / host / prohibited) instead of time exceeded, the target's port unreachable in every RFC 4884 shape, quoted TTL 0/1, quoted header checksum recomputed or stale, TOS rewritten, IPv4 options in the outer header; 4% of the genuine responses are delivered again one to two rounds later; 6% of genuine responses are preceded by a near-miss forgery (other destination, other protocol, other identifier / fixed port, Dublin marker altered, other ICMP type/code) which must complete nothing; every probe whose genuine response was read must be Complete with the right responder; thorough walks initial sequences so that every issuable value is issued (per-cell counts under distinct_observed seq:<cell>)".into();
     rep.assumptions = vec![
         "IPv6 routers quote as much of the datagram as fits in 1280 octets (RFC 4443 2.4c); IPv4 error messages with RFC 4884 structure are capped at 576 octets (RFC 1812)".into(),
         "a forgery differs from the genuine quotation in one identity component and arrives 1..50us before it".into(),
